@@ -94,7 +94,8 @@ pub fn gen_axis(rng: &mut Rng, n: usize, sp: Spacing, f32safe: bool) -> Vec<f64>
             let mut cur = rng.range(-16, 16) as f64 * 0.5 + 0.25;
             for _ in 0..n {
                 v.push(cur);
-                if rng.chance(2, 3) {
+                // (a walk in steps of 1/16 can land exactly on 0.0: no ulp-cluster there either)
+                if rng.chance(2, 3) && cur.abs() > 1e-6 {
                     let k = rng.range(1, 3);
                     for _ in 0..k {
                         cur = if f32safe { next_up32(cur as f32) as f64 } else { next_up(cur) };
